@@ -147,6 +147,9 @@ class World:
     # --- network events --------------------------------------------------------------------
     @property
     def sock(self) -> FakeSocket | None:
+        live = [s for s in self.net.sockets if not s.closed and s.connect_result == 0]
+        if live:
+            return live[-1]
         return self.net.sockets[-1] if self.net.sockets else None
 
     def io_connect(self, s: FakeSocket, result: int = 0) -> None:
